@@ -385,7 +385,9 @@ static Eval evaluate(const Case& c) {
     if (nb) { if ((int)nb == g.nbs) ex[0] = ex[0].substr(nb); else if (g.nbs != 0) bs_ok = false; }
     for (auto& l : ex) if (!l.empty() && l.back() == '\r') l.pop_back();
     if (!bs_ok) e.cores.push_back("message: leading backspace count delivered " + std::to_string(g.nbs) + " expected " + std::to_string(nb));
-    auto same_line = [&](size_t i) { return ex[i] == got[i] || (raw[i].empty() && got[i] == " "); };
+    // a bare-CR line at the very end is an empty last line of a CRLF text: it may be dropped like a trailing newline
+    while (ex.size() > got.size() && !raw.empty() && raw.back() == "\r") { ex.pop_back(); raw.pop_back(); }
+    auto same_line = [&](size_t i) { return ex[i] == got[i] || ((raw[i].empty() || raw[i] == "\r") && got[i] == " "); };
     size_t n = std::min(ex.size(), got.size()), i = 0;
     while (i < n && same_line(i)) ++i;
     if (i < n)
